@@ -487,4 +487,29 @@ def getFromPaths (d : DCtx) (w : World) (config : Option Str) (search : Str) (at
     | .error e => .error e
     | .ok sids => Ctx.mapE (fun x => d.recordOf w config x attributes enc) sids
 
+/-! ### GetFromAll (routing by type through `spil_data_conf.get_getter_for`) -/
+
+/-- `get_getter_for(x)` is a Getter (the shared default `GetFromPaths()`), not `None` -/
+def hasGetter (d : DCtx) (x : Sid) : Bool :=
+  !d.data.noGetterTypes.contains x.type && (x.typed || d.data.hasDefaultGetter)
+
+/-- `GetFromAll().get(search, attributes, sid_encode)`: the search is unfolded, every typed search
+    goes to the Getter configured for its type (searches of types configured with `None` are
+    skipped), each Getter answers its searches with `do_get` -/
+def getFromAll (d : DCtx) (w : World) (search : Str) (attributes : List Str) (enc : Enc) :
+    Except Err (List (List (Str × Option Str))) :=
+  match d.ctx.unfoldSearch search false false with
+  | .error e => .error e
+  | .ok searches =>
+    let mine := searches.filter d.hasGetter
+    if mine.isEmpty then .ok [] else
+    match d.pathsDoFindSids w none mine with
+    | .error e => .error e
+    | .ok sids => Ctx.mapE (fun x => d.recordOf w none x attributes enc) sids
+
+/-- `GetFromAll().get_data(sid, attributes, sid_encode)` -/
+def getDataAll (d : DCtx) (w : World) (x : Sid) (attributes : List Str) (enc : Enc) :
+    Except Err (List (Str × Option Str)) :=
+  if d.hasGetter x then d.getData w none x attributes enc else .ok []
+
 end DCtx
